@@ -4,14 +4,16 @@
    Routing as a function of (slot, slice, shred) only: in the model the relay of a shred is
    `rotor_relay rng sm slot slice shred` and the tree of a shred is `turbine_tree rng stakes fanout own slot
    shred`; neither has an argument for the computing node (other than the node's own position in the
-   tree), construction time or call order, and the sampler `sm` of Rotor::new is `rotor_new stakes`, a
-   function of the stakes.  What remains to be shown, and is shown below: distinct coordinates give
+   tree), construction time or call order, and the sampler `sm` is `rotor_new stakes` / `rotor_new_fa1 stakes`
+   (`rotor_ctor fa1 stakes`), a function of the stakes - for Rotor::new_fa1 since b638f0a, which replaced
+   the thread-RNG shuffle of PartitionSampler::new by a fixed-seed one (modelled: rand's shuffle on ChaCha12).  What remains to be shown, and is shown below: distinct coordinates give
    distinct seeds; the caches return what a fresh computation returns for every query history and eviction
    policy; given agreement, a loss-free run delivers every shred to every other validator exactly once
    (Turbine: for EVERY order of the validators and every fanout >= 1; Rotor: through exactly one relay
    broadcast, for every n, relay and leader, relay = leader included).
-   Refuted for the faithful model: agreement between Rotor::new_fa1 instances (PartitionSampler::new
-   shuffles with the thread RNG, so the sampler is not a function of the stakes).
+   Refuted for the model of the pinned tree only: agreement between Rotor::new_fa1 instances (thread-RNG
+   shuffle; `rotor_new_fa1_pinned stakes order`).  Still a known finding: Rotor::new_fa1 panics at construction
+   for some validator sets (C17_fa1_partition_constructible_refuted).
    PARTIAL (validated by the correspondence / oracle, not proved): that the real instances compute the
    model's function irrespective of own id, construction time, call order and cache state; that
    StdRng::from_seed is Lib/ChaCha.v's ChaCha12 and the weighted shuffle's sum tree computes
@@ -42,34 +44,34 @@ Theorem C16_cache_is_memo : forall (K V : Type) (keq : K -> K -> bool) (f : K ->
     memo_run keq f keeps c ks = map f ks.
 Proof. exact cache_is_memo_any. Qed.
 
-(* the committee Rotor::new samples from is a function of the stakes: two instances of the same epoch hold
+(* the sampler either constructor builds is a function of the stakes: two instances of the same epoch hold
    the same sampler, hence (same rng) the same relay for every triple *)
-Theorem C16_rotor_new_relay_is_a_function_of_the_triple : forall (rng : list N -> stream) stakes sm1 sm2 slot slice shred,
-  rotor_new stakes = COk sm1 -> rotor_new stakes = COk sm2 ->
+Theorem C16_rotor_relay_is_a_function_of_the_triple : forall (rng : list N -> stream) fa1 stakes sm1 sm2 slot slice shred,
+  rotor_ctor fa1 stakes = COk sm1 -> rotor_ctor fa1 stakes = COk sm2 ->
   rotor_relay rng sm1 slot slice shred = rotor_relay rng sm2 slot slice shred.
-Proof. exact rotor_new_relay_is_a_function_of_the_triple. Qed.
+Proof. exact rotor_relay_is_a_function_of_the_triple. Qed.
 
-(* ... which fails for Rotor::new_fa1 *)
-Theorem C16_rotor_fa1_instances_disagree_refuted :
+(* ... which failed for Rotor::new_fa1 in the pinned tree *)
+Theorem C16_rotor_fa1_instances_disagree_pinned_refuted :
   exists stakes o1 o2 sm1 sm2 slot slice shred,
-    rotor_new_fa1 stakes o1 = COk sm1 /\ rotor_new_fa1 stakes o2 = COk sm2 /\
+    rotor_new_fa1_pinned stakes o1 = COk sm1 /\ rotor_new_fa1_pinned stakes o2 = COk sm2 /\
     (exists r1 r2, rotor_relay (stdrng 4) sm1 slot slice shred = RRelay r1 /\
                    rotor_relay (stdrng 4) sm2 slot slice shred = RRelay r2 /\ r1 <> r2).
-Proof. exact rotor_fa1_instances_disagree_refuted. Qed.
+Proof. exact rotor_fa1_instances_disagree_pinned_refuted. Qed.
 
 (* sample_relay indexes the committee by the shred index: a relay exists for every shred of a slice
-   (both Rotor constructors: st = StStake TOTAL_SHREDS / StFA1Part TOTAL_SHREDS) *)
-Theorem C16_rotor_relay_defined_for_every_shred : forall (rng : list N -> stream) st stakes order sm slot slice q r shred,
-  quorum_size st = TOTAL_SHREDS -> construct st stakes order = COk sm -> fa2_counts_ok sm ->
+   (both Rotor constructors) *)
+Theorem C16_rotor_relay_defined_for_every_shred : forall (rng : list N -> stream) fa1 stakes sm slot slice q r shred,
+  rotor_ctor fa1 stakes = COk sm ->
   rotor_relays rng sm slot slice = Ok q r -> shred < TOTAL_SHREDS ->
   exists v, rotor_relay rng sm slot slice shred = RRelay v /\ nth_error q (N.to_nat shred) = Some v.
 Proof. exact rotor_relay_defined_for_every_shred. Qed.
 
 (* the relay always is a validator of the epoch (so that `send` has an address) *)
-Theorem C16_rotor_new_relay_in_range : forall (rng : list N -> stream) stakes sm slot slice shred r,
-  rotor_new stakes = COk sm -> lenN stakes < W64 ->
+Theorem C16_rotor_relay_in_range : forall (rng : list N -> stream) fa1 stakes sm slot slice shred r,
+  rotor_ctor fa1 stakes = COk sm -> lenN stakes < W64 ->
   rotor_relay rng sm slot slice shred = RRelay r -> r < lenN stakes.
-Proof. exact rotor_new_relay_in_range. Qed.
+Proof. exact rotor_relay_in_range. Qed.
 
 (* Rotor, loss-free: every validator other than the leader obtains every shred exactly once, through exactly
    one relay broadcast; for every validator count, relay and leader *)
@@ -84,8 +86,8 @@ Proof. exact rotor_exactly_one_relay_broadcast. Qed.
 
 (* ... in particular for the relay the model computes for any (slot, slice, shred) from ANY random stream and
    the leader of that slot *)
-Theorem C16_rotor_model_exactly_once : forall (rng : list N -> stream) stakes sm slot slice shred relay,
-  rotor_new stakes = COk sm -> lenN stakes < W64 ->
+Theorem C16_rotor_model_exactly_once : forall (rng : list N -> stream) fa1 stakes sm slot slice shred relay,
+  rotor_ctor fa1 stakes = COk sm -> lenN stakes < W64 ->
   rotor_relay rng sm slot slice shred = RRelay relay ->
   let n := lenN stakes in
   let leader := leader_of n slot in
@@ -152,10 +154,10 @@ Proof. exact routing_nonvacuous. Qed.
 Print Assumptions C16_rotor_seed_injective.
 Print Assumptions C16_turbine_seed_injective.
 Print Assumptions C16_cache_is_memo.
-Print Assumptions C16_rotor_new_relay_is_a_function_of_the_triple.
-Print Assumptions C16_rotor_fa1_instances_disagree_refuted.
+Print Assumptions C16_rotor_relay_is_a_function_of_the_triple.
+Print Assumptions C16_rotor_fa1_instances_disagree_pinned_refuted.
 Print Assumptions C16_rotor_relay_defined_for_every_shred.
-Print Assumptions C16_rotor_new_relay_in_range.
+Print Assumptions C16_rotor_relay_in_range.
 Print Assumptions C16_rotor_exactly_one_relay_broadcast.
 Print Assumptions C16_rotor_model_exactly_once.
 Print Assumptions C16_turbine_exactly_once.
